@@ -564,6 +564,17 @@ func main() {
 		out.Emit(runSet(0, "replay", fromFiles(rc.Case.Files), rc.Case.Rules, rc.Case.Mode))
 		return
 	}
+	// which fixes exist: the loop model has one constructor per fix (Model/FixLoop.v rule)
+	var defNames, fmtNames []string
+	for _, f := range fixes.NewDefaultFixes() {
+		defNames = append(defNames, f.Name())
+	}
+	for _, f := range fixes.NewDefaultFormatterFixes() {
+		fmtNames = append(fmtNames, f.Name())
+	}
+	sort.Strings(defNames)
+	sort.Strings(fmtNames)
+	out.Emit(map[string]any{"kind": "meta", "fixes": defNames, "formatter_fixes": fmtNames})
 	if os.Args[3] != "-" {
 		fs, _ := filepath.Glob(filepath.Join(os.Args[3], "*.json"))
 		sort.Strings(fs)
